@@ -171,10 +171,19 @@ def negation(case, ctx):
 def _batches(draw, tier):
     case = draw(_configs(tier))
     n = draw(st.integers(2, 4))
-    dyadic = draw(st.sampled_from([True, False, False]))
+    dyadic = draw(st.sampled_from([True, True, False, False]))
     if dyadic:
         # pure powers of two: loads AND class edges (k/n * max, with a rounded k/n) scale exactly
         factors = [1.0] + [2.0 ** draw(st.integers(-3, 0)) for _ in range(n - 1)]
+        if draw(st.booleans()):
+            # edge-rich: integer loads with |max| = number of bins, so EVERY load and range sits on a class edge k/n*max
+            # (including the k for which k/n*max rounds below k, e.g. 29, 57, 58 of 100)
+            nb = case["bins"]
+            seq = draw(st.lists(st.integers(-nb, nb), min_size=2, max_size=10))
+            seq.insert(draw(st.integers(0, len(seq))), nb * draw(st.sampled_from([-1, 1])))
+            case["seq"] = [float(x) for x in seq]
+            case["unit"] = 2.0 ** math.floor(math.log2(draw(st.sampled_from([0.5, 1.0, 2.0])) * case["R_m"] / nb))
+            case["edge_rich"] = True
     else:
         # general ratios: loads i/m with a prime m, so that loads and ranges (other than +-max, +-2max, which are
         # exact for every point) do not sit on class edges, where the class would depend on rounding
@@ -186,6 +195,10 @@ def _batches(draw, tier):
         factors = [1.0] + [draw(st.floats(0.05, 1.0, allow_nan=False)) for _ in range(n - 1)]
     order = draw(st.permutations(range(n)))
     case.update({"factors": [factors[i] for i in order], "dyadic": dyadic})
+    # labels of the load steps and of the nodes: the order of the sequence is the row order, ids are only labels
+    case["step_ids"] = draw(st.sampled_from(["range", "range", "gaps", "descending", "shuffled"]))
+    case["node_ids"] = draw(st.sampled_from(["range", "offset", "descending"]))
+    case["perm"] = list(draw(st.permutations(range(len(case["seq"])))))
     return case
 
 
@@ -201,6 +214,8 @@ def batch_vs_alone(case, ctx):
     factors = case["factors"]
     n = len(factors)
     ctx.label("points=%d" % n, "dyadic" if case["dyadic"] else "general_ratio")
+    if case.get("edge_rich"):
+        ctx.label("edge_rich")
     ctx.nontrivial()
     loads_by_point = [[f * x for x in base] for f in factors]
     maxima = [max(abs(x) for x in lp) for lp in loads_by_point]
@@ -212,9 +227,17 @@ def batch_vs_alone(case, ctx):
             vals = set(lp) | set(a - b for a in lp for b in lp) | {0.0}
             if any(_near_edge(v, w) for v in vals if v != 0.0 and abs(v) not in (mx, 2 * mx)):
                 ctx.skip("non-dyadic ratio with a load or range on a class edge (rounding-dependent class)")
-    idx = pd.MultiIndex.from_product([range(len(base)), range(n)], names=["load_step", "node_id"])
-    series = pd.Series([loads_by_point[j][i] for i in range(len(base)) for j in range(n)], index=idx, dtype=np.float64)
-    max_series = pd.Series(maxima, index=pd.Index(range(n), name="node_id"), dtype=np.float64)
+    m = len(base)
+    step_ids = {"range": list(range(m)), "gaps": [10 * i + 10 for i in range(m)], "descending": list(range(m, 0, -1)),
+                "shuffled": [p + 1 for p in case.get("perm", range(m))][:m]}[case.get("step_ids", "range")]
+    if len(step_ids) != m:
+        step_ids = list(range(m))
+    node_ids = {"range": list(range(n)), "offset": [11 + j for j in range(n)], "descending": list(range(n, 0, -1))}[case.get("node_ids", "range")]
+    ctx.label("step_ids=" + case.get("step_ids", "range"), "node_ids=" + case.get("node_ids", "range"))
+    idx = pd.MultiIndex.from_arrays([[step_ids[i] for i in range(m) for j in range(n)], [node_ids[j] for i in range(m) for j in range(n)]],
+                                    names=["load_step", "node_id"])
+    series = pd.Series([loads_by_point[j][i] for i in range(m) for j in range(n)], index=idx, dtype=np.float64)
+    max_series = pd.Series(maxima, index=pd.Index(node_ids, name="node_id"), dtype=np.float64)
     law, binned_batch = _law(case, max_series)
     det, rec = _hcm.run_two_pass(series, binned_batch)
     df = rec.collective
